@@ -34,7 +34,10 @@ thread_local! {
     pub static ACCESS_QUERIES: Cell<u64> = const { Cell::new(0) };
 }
 
-#[derive(Clone, Debug, PartialEq, Eq)]
+/// Equality deliberately ignores `idx`: two functions with the same declarations compare equal,
+/// so graphs routinely contain *equal* functions at different positions (C12: `==` on graphs
+/// must still tell an edge endpoint moved between two equal functions apart).
+#[derive(Clone, Debug)]
 pub struct TFn {
     pub idx: usize,
     pub reads: u8,
@@ -42,6 +45,13 @@ pub struct TFn {
     /// Incremented through the `&mut F` the `_mut` APIs hand out.
     pub runs: u32,
 }
+
+impl PartialEq for TFn {
+    fn eq(&self, o: &TFn) -> bool {
+        self.reads == o.reads && self.writes == o.writes && self.runs == o.runs
+    }
+}
+impl Eq for TFn {}
 
 fn ids(mask: u8) -> TypeIds {
     let mut v = TypeIds::new();
@@ -79,12 +89,59 @@ pub fn builder_from_spec(spec: &GraphSpec) -> (FnGraphBuilder<TFn>, BuildLog) {
         fn_ids.push(b.add_fn(TFn { idx: i, reads: spec.reads[i], writes: spec.writes[i], runs: 0 }));
     }
     let mut results = Vec::with_capacity(spec.calls.len());
-    for &(a, c, k) in &spec.calls {
-        let r = match k {
-            EK::Logic => b.add_logic_edge(fn_ids[a as usize], fn_ids[c as usize]),
-            EK::Contains => b.add_contains_edge(fn_ids[a as usize], fn_ids[c as usize]),
-        };
-        results.push(r.map(|e| e.index()).map_err(|_| ()));
+    // Roughly a third of the specs are replayed through the batch forms (add_*_edges) where that
+    // cannot change the meaning: a batch is a run of consecutive same-kind calls of which only
+    // the LAST may be one the reference model rejects (a batch stops at its first rejection).
+    let h = crate::runner::hash_of(spec);
+    let batching = h % 3 == 0 && spec.n <= 64 && !spec.calls.is_empty();
+    if !batching {
+        for &(a, c, k) in &spec.calls {
+            let r = match k {
+                EK::Logic => b.add_logic_edge(fn_ids[a as usize], fn_ids[c as usize]),
+                EK::Contains => b.add_contains_edge(fn_ids[a as usize], fn_ids[c as usize]),
+            };
+            results.push(r.map(|e| e.index()).map_err(|_| ()));
+        }
+    } else {
+        let accepted = crate::model::UserGraph::from_spec(spec).accepted;
+        let mut rng = crate::choice::Rng::new(h);
+        let mut i = 0;
+        while i < spec.calls.len() {
+            let kind = spec.calls[i].2;
+            let want = rng.range(1, 4);
+            let mut j = i;
+            while j < spec.calls.len() && j - i < want && spec.calls[j].2 == kind {
+                j += 1;
+                if !accepted[j - 1] {
+                    break;
+                }
+            }
+            let pairs: Vec<(FnId, FnId)> = spec.calls[i..j].iter().map(|c| (fn_ids[c.0 as usize], fn_ids[c.1 as usize])).collect();
+            macro_rules! call {
+                ($arr:expr) => {
+                    match kind {
+                        EK::Logic => b.add_logic_edges($arr).map(|x| x.iter().map(|e| e.index()).collect::<Vec<_>>()),
+                        EK::Contains => b.add_contains_edges($arr).map(|x| x.iter().map(|e| e.index()).collect::<Vec<_>>()),
+                    }
+                };
+            }
+            let r = match pairs.len() {
+                1 => call!([pairs[0]]),
+                2 => call!([pairs[0], pairs[1]]),
+                3 => call!([pairs[0], pairs[1], pairs[2]]),
+                _ => call!([pairs[0], pairs[1], pairs[2], pairs[3]]),
+            };
+            match r {
+                Ok(ids) => results.extend(ids.into_iter().map(Ok)),
+                Err(_) => {
+                    for _ in i..j - 1 {
+                        results.push(Ok(usize::MAX));
+                    }
+                    results.push(Err(()));
+                }
+            }
+            i = j;
+        }
     }
     (b, BuildLog { ids: fn_ids.iter().map(|i| i.index()).collect(), results })
 }
